@@ -780,23 +780,55 @@ def write_violation(prop, viols, scratch, tier):
 
 
 def do_replay(prop, path):
+    """Re-execute the stored counterexample(s) natively against /repo's CURRENT working tree.
+    exit 1 = a stored failing input still fails; exit 0 = none does (or there is no input to run:
+    then the stored verifier output is printed and the exit code is 1, because the obligation
+    failed without a replayable input)."""
     rep = json.load(open(path))
     print(json.dumps({'property': rep['property'], 'obligations': [v['obligation'] for v in rep['violations']]}, indent=1))
     rc = 0
-    for v in rep['violations']:
-        rp = v.get('replay', {})
-        if rp.get('test_code'):
-            print('--- concrete counterexample (Kani playback test) for %s' % v['obligation'])
-            print(rp['test_code'])
-            print('--- native run against the real crate:')
-            print(rp.get('run_output', '')[-1500:])
-            if rp.get('reproduced'):
+    scratch = make_scratch('replay-' + prop)
+    try:
+        for v in rep['violations']:
+            rp = v.get('replay', {})
+            if rp.get('test_code') and rp.get('test_name'):
+                hname = (rp.get('harness') or v['obligation'].split('/')[-1])
+                h = props.find_harness(hname)
+                if not h:
+                    print('--- %s: harness %s no longer registered' % (v['obligation'], hname))
+                    continue
+                hdir = os.path.join(scratch, 'harness')
+                if os.path.exists(hdir):
+                    shutil.rmtree(hdir)
+                shutil.copytree(os.path.join(VERIF, 'kani', 'harness'), hdir)
+                for fn in os.listdir(hdir):
+                    fp = os.path.join(hdir, fn)
+                    txt = open(fp).read()
+                    if re.search(r'\b' + re.escape(h['name']) + r'\b', txt):
+                        open(fp, 'w').write(txt + '\n' + rp['test_code'] + '\n')
+                rdir = os.path.join(scratch, 'repo')
+                copy_repo(rdir, harness_dir=hdir)
+                cdir = os.path.join(rdir, CRATES[h['crate']]['dir'])
+                code, o, e, w = sh(['cargo', 'kani', 'playback', '-Z', 'concrete-playback', '--', rp['test_name']], cwd=cdir, timeout=1800)
+                full = o + e
+                keep = [l for l in full.split('\n') if 'panicked at' in l or 'assertion' in l or 'test result' in l or l.startswith('test ')]
+                print('--- %s: concrete counterexample (Kani playback test) run natively against the current tree:' % v['obligation'])
+                print(rp['test_code'])
+                print('\n'.join(keep[:12]))
+                if code != 0 and ('panicked' in full or 'FAILED' in full):
+                    print('=> still fails')
+                    rc = 1
+                else:
+                    print('=> does not fail on the current tree')
+            elif rp.get('skipped'):
+                print('--- %s: not replayed at the time (%s)' % (v['obligation'], rp['skipped']))
+            else:
+                print('--- %s: no failing input was found; verifier output at the time:' % v['obligation'])
+                for o in v.get('verifier_output', []) or [json.dumps(v.get('failed_checks', ''))]:
+                    print(o)
                 rc = 1
-        else:
-            print('--- %s: no failing input; verifier output:' % v['obligation'])
-            for o in v.get('verifier_output', []) or [json.dumps(v.get('failed_checks', ''))]:
-                print(o)
-            rc = 1
+    finally:
+        shutil.rmtree(scratch, ignore_errors=True)
     return rc
 
 
